@@ -57,6 +57,9 @@ def corpus():
         # a compound with a Map member is mapped: outside the model (run on the implementation + oracle only)
         "#" + make_case("(Either 0 Float (Map ((s yes) (i 1)) ((s no) (i 0))))", [("set", "(f 12)"), ("set", "(s yes)"), ("set", "(f 4)")]),
         "#" + make_case("(Either 0 Float (MapH ((s yes) (i 1)) ((s no) (i 0))))", [("set", "(f 12)"), ("set", "(s yes)")]),
+        "#r|-|dyn dyn 1 0|lo (i 0);hi (i 2);set (f 2);set (f 6);set (i 0);set (i 1)",
+        "#r|-|dyn dyn 0 1|lo (i -4);hi (i -1);set (f -6);set (i -2);hi (f 0);set (f -2)",
+        "#r|-|dyn (f 8) 1 1|lo (f 0);set (f 0);set (f 8);set (i 1);lo (f 4);set (f 2)",
     ]
 
 
@@ -107,6 +110,9 @@ def generate(rng, tier):
         tt = "(Either 0 %s)" % " ".join(alts) if rng.random() < 0.7 else "(CompoundH %s)" % " ".join(alts)
         vals = [rng.choice(["(s yes)", "(s no)", "(s y)", "(ss yes)", rng.choice(L), rng.choice(L)]) for _ in range(rng.randint(2, 5))]
         yield "#" + make_case(tt, [(rng.choice(kinds), v) for v in vals])
+    # Range with trait-named bounds: property-backed, outside the Lean model (implementation + oracle only)
+    for _ in range(ncomp // 3):
+        yield dynamic_case(rng)
     for _ in range(ncomp):
         tt = V.random_trait(rng, rng.randint(1, depth), mapped=False)
         ops = [(rng.choice(kinds), V.random_value_for(rng, tt, L)) for _ in range(rng.randint(2, 6))]
@@ -510,6 +516,129 @@ def has_mapped_member(t):
     return t[0] in ("Either", "CompoundH", "Base") and any(has_mapped_member(x) for x in t[1:])
 
 
+# ------------------------------------------------------------------ Range with trait-named (dynamic) bounds
+
+DYN_NUMS = ["(i -1)", "(i 0)", "(i 2)", "(f -4)", "(f 0)", "(f 8)", "N"]
+DYN_VALUES = ["(f 2)", "(f -6)", "(f 6)", "(f 10)", "(f -2)", "(f 0)", "(f -4)", "(f 8)", "(f 4)", "(i 0)", "(i -1)", "(i 1)", "(i 2)",
+              "(i 3)", "(b 1)", "(nf 32 2)", "(nf 64 -6)", "(ni 8 3)", "(ni 64 2)", "(f nan)", "(f inf)", "(s a)", "N",
+              "(idx (ret 1))", "(flt (ret 6))", "(is 0)", "(fs 2)"]
+
+
+def dynamic_case(rng):
+    """`#r|-|low high exlo exhi|ops`: low / high are `dyn` (a trait name), a number term or N; ops set the bound
+    attributes (`lo v`, `hi v`) and assign the range through the routes."""
+    low = rng.choice(["dyn", "dyn", "dyn", "(i 0)", "(f 0)", "N"])
+    high = rng.choice(["dyn", "dyn", "(i 2)", "(f 8)", "N"]) if low != "N" else "dyn"
+    if low != "dyn" and high != "dyn":
+        low = "dyn"
+    ops = []
+    if low == "dyn":
+        ops.append("lo " + rng.choice(DYN_NUMS[:6]))
+    if high == "dyn":
+        ops.append("hi " + rng.choice(DYN_NUMS[:6]))
+    for _ in range(rng.randint(3, 9)):
+        r = rng.random()
+        if r < 0.15 and low == "dyn":
+            ops.append("lo " + rng.choice(DYN_NUMS))
+        elif r < 0.3 and high == "dyn":
+            ops.append("hi " + rng.choice(DYN_NUMS))
+        else:
+            ops.append("%s %s" % (rng.choice(["set", "set", "tset", "setq", "qset"]), rng.choice(DYN_VALUES)))
+    return "#r|-|%s %s %d %d|%s" % (low, high, rng.randint(0, 1), rng.randint(0, 1), ";".join(ops))
+
+
+def run_r(cfg, opstr):
+    """Range(low='lo', high='hi', …): after every accepted assignment the cached and the readable value must be of
+    the bounds' type, the conversion of the assigned value, and inside the CURRENT bounds with their exclusivity."""
+    import traits.api as T
+    ctx = V.Ctx()
+    toks = V.parse_sexps(cfg)
+    low_t, high_t, exlo, exhi = toks[0], toks[1], toks[2] == "1", toks[3] == "1"
+
+    def bound(t, name):
+        return name if t == "dyn" else V.build_value(t, ctx)
+    ns = {"lo": T.Any(0), "hi": T.Any(2), "__repr__": lambda self: "<D>"}
+    try:
+        ns["r"] = T.Range(low=bound(low_t, "lo"), high=bound(high_t, "hi"), exclude_low=exlo, exclude_high=exhi)
+    except Exception as e:
+        return "ctor " + V.exc_name(e), [], ["dynrange:ctor-error"]
+    D = type("D", (T.HasTraits,), ns)
+    obj = D()
+    hits, outs, tags = [], [], {"dynrange"}
+    where0 = "Range(low=%s, high=%s, exclude_low=%s, exclude_high=%s)" % (
+        V.show_sexp(low_t), V.show_sexp(high_t), exlo, exhi)
+    for op in [o for o in opstr.split(";") if o.strip()]:
+        k, vs = op.strip().split(" ", 1)
+        value = V.build_value(V.parse_sexp(vs), ctx)
+        if k in ("lo", "hi"):
+            setattr(obj, k, value)
+            outs.append("%s=%s" % (k, vs))
+            continue
+        lo = obj.lo if low_t == "dyn" else V.build_value(low_t, ctx)
+        hi = obj.hi if high_t == "dyn" else V.build_value(high_t, ctx)
+        before = obj.__dict__.get("_traits_cache_r", None)
+        exc = None
+        try:
+            import warnings
+            with warnings.catch_warnings():
+                warnings.simplefilter("ignore")
+                if k == "set":
+                    obj.r = value
+                elif k == "tset":
+                    obj.trait_set(r=value)
+                elif k == "qset":
+                    obj.trait_set(trait_change_notify=False, r=value)
+                else:
+                    obj.trait_setq(r=value)
+        except BaseException as e:  # noqa: B902
+            exc = e
+        where = "%s with lo=%r hi=%r, %s r:=%s" % (where0, lo, hi, k, vs)
+        if exc is not None:
+            en = V.exc_name(exc)
+            outs.append(en)
+            if obj.__dict__.get("_traits_cache_r", None) is not before:
+                hits.append(_hit("failed-assignment-had-effect:RangeDyn:%s" % en, where))
+            if en == "TypeError" and ("N" in (low_t, high_t) or lo is None or hi is None):
+                # (known finding: dynamic-range-none-bound-typeerror) a None bound: _vtype NoneType for a static None (NoneType(value) raises on every assignment),
+                # and for a bound attribute holding None the error path (full_info) calls vtype(None)
+                hits.append(_hit("dynamic-range-none-bound-typeerror", where + ": raised TypeError"))
+            elif en != "TraitError" and en not in protocol_exceptions(V.parse_sexp(vs), set()):
+                hits.append(_hit("foreign-exception:RangeDyn:%s" % en, where))
+            continue
+        tags.add("dynrange:accepted")
+        stored = obj.__dict__.get("_traits_cache_r", None)
+        try:
+            readable = obj.r
+        except Exception as e:
+            en = V.exc_name(e)
+            outs.append("ok, read raises " + en)
+            if en == "TypeError" and ("N" in (low_t, high_t) or lo is None or hi is None):
+                hits.append(_hit("dynamic-range-none-bound-typeerror", where + ": accepted, reading r raises TypeError"))
+            else:
+                hits.append(_hit("readable-raises:RangeDyn:%s" % en, where))
+            continue
+        outs.append("ok " + V.show_value(stored, ctx))
+        if lo is None and hi is None:
+            continue                                   # unbounded: any int or float as it is
+        T_ = type(lo) if lo is not None else type(hi)
+        if low_t != "dyn" and low_t != "N" and high_t == "dyn":
+            T_ = type(V.build_value(low_t, ctx))       # a static bound fixes the type
+        if high_t != "dyn" and high_t != "N" and low_t == "dyn":
+            T_ = type(V.build_value(high_t, ctx))
+        for label, w in (("stored", stored), ("readable", readable)):
+            ok_type = type(w) is T_
+            ok_conv = ok_type and same(w, attempt(lambda: T_(value))[0] if attempt(lambda: T_(value)) else None, ctx)
+            ok_range = ok_type and in_range(lo, hi, exlo, exhi, w)
+            if not ok_range:
+                hits.append(_hit("stored-out-of-domain:RangeDyn", where + ": %s %s lies outside the declared range" % (
+                    label, V.show_value(w, ctx))))
+                break
+            if not ok_conv:
+                hits.append(_hit("unexpected-conversion:RangeDyn", where + ": %s %s" % (label, V.show_value(w, ctx))))
+                break
+    return " ; ".join(outs), hits, tags
+
+
 def has_any_member(t):
     if isinstance(t, str):
         return False
@@ -520,6 +649,8 @@ def has_any_member(t):
 
 def run_impl(case):
     kind, env, a, b = case.lstrip("#").split("|")
+    if kind == "r":
+        return run_r(a, b)
     assert kind == "a"
     ctx = V.Ctx()
     decls = []
